@@ -246,6 +246,12 @@ func scripted() map[string]input {
 	for name, in := range sharedScenarios() {
 		out[name] = in
 	}
+	for name, in := range deepScenarios() {
+		out[name] = in
+	}
+	for name, in := range crossScenarios() {
+		out[name] = in
+	}
 	return out
 }
 
